@@ -410,11 +410,18 @@ def _leaf(kind):
         return CTX.Lock()          # billiard lock: pickles only while spawning
     if kind == 'reduce':
         return C12Unreducible()
+    if kind == 'deep':
+        # plain data, nested deeper than the interpreter recurses: neither
+        # pickle nor repr() can walk it
+        v = []
+        for _ in range(sys.getrecursionlimit() * 2):
+            v = [v]
+        return v
     raise HarnessBug(kind)
 
 
 LEAVES = ['lambda', 'tlock', 'block', 'reduce', 'reduce-os', 'reduce-eof',
-          'reduce-value']
+          'reduce-value', 'deep']
 
 
 def build_unpicklable(kind, shape):
